@@ -3,6 +3,7 @@
 From Coq Require Import List Bool Arith NArith ZArith QArith Lia.
 From DV Require Import Common.Res Common.Str.
 Import ListNotations.
+Local Open Scope nat_scope.
 
 (** The six classifications of [DcmMetaExtension.classifications]. *)
 Inductive cls := GConst | GSlices | TSamples | TSlices | VSamples | VSlices.
@@ -79,7 +80,7 @@ Section WithV.
   (** Per-key state: [None] = the key is absent; a global constant is a singleton list. *)
   Definition kst := option (cls * list V).
 
-  Record ext := mk_ext { hd : hdr; entries : list (key * (cls * list V)) }.
+  Record ext := mk_ext { hdr_of : hdr; entries : list (key * (cls * list V)) }.
 
   Fixpoint assoc (k : key) (l : list (key * (cls * list V))) : kst :=
     match l with
